@@ -80,7 +80,11 @@ func c17Versions(r *RNG) []c17Version {
 			}
 			v.funcs[name] = tag
 			v.order = append(v.order, name)
-			fmt.Fprintf(&sb, "func (t *T) M%d() string {\n\treturn %q + t.Tag\n}\n\n", i, tag)
+			if i%2 == 1 { // every other method takes a parameter
+				fmt.Fprintf(&sb, "func (t *T) M%d(k int) string {\n\tif k != 7 {\n\t\treturn \"bad argument\"\n\t}\n\treturn %q + t.Tag\n}\n\n", i, tag)
+			} else {
+				fmt.Fprintf(&sb, "func (t *T) M%d() string {\n\treturn %q + t.Tag\n}\n\n", i, tag)
+			}
 		}
 		for n, t := range v.funcs {
 			prev[n] = t
@@ -89,6 +93,18 @@ func c17Versions(r *RNG) []c17Version {
 		vs = append(vs, v)
 	}
 	return vs
+}
+
+// c17Args: the call's argument list - methods with an odd index take one parameter
+func c17Args(fn string) string {
+	if strings.HasPrefix(fn, "T.M") {
+		var i int
+		fmt.Sscan(strings.TrimPrefix(fn, "T.M"), &i)
+		if i%2 == 1 {
+			return "(7)"
+		}
+	}
+	return "()"
 }
 
 func (v c17Version) loadLine() string {
@@ -184,11 +200,11 @@ func (c *Ctx) c17History() (lines, impl, want []string, script []string, fatal s
 				m := strings.TrimPrefix(fn, "T.")
 				if r.Bool() {
 					eval(fmt.Sprintf("%s := %s.%s", id, in, m))
-					cp = c17Cap{name: id, expr: id + "()", fn: fn, suffix: in}
+					cp = c17Cap{name: id, expr: id + c17Args(fn), fn: fn, suffix: in}
 					c.Rep.Count("capture-bound-method")
 				} else {
 					eval(fmt.Sprintf("%s := &Holder{Fn: %s.%s}", id, in, m))
-					cp = c17Cap{name: id, expr: id + ".Fn()", fn: fn, suffix: in}
+					cp = c17Cap{name: id, expr: id + ".Fn" + c17Args(fn), fn: fn, suffix: in}
 					c.Rep.Count("capture-bound-method-in-field")
 				}
 			} else {
@@ -233,7 +249,7 @@ func (c *Ctx) c17History() (lines, impl, want []string, script []string, fatal s
 						continue
 					}
 					in := Pick(r, instNames)
-					got := eval(fmt.Sprintf("println(%s.%s())", in, strings.TrimPrefix(n, "T.")))
+					got := eval(fmt.Sprintf("println(%s.%s%s)", in, strings.TrimPrefix(n, "T."), c17Args(n)))
 					emit("rl name "+n, strings.TrimSuffix(got, "/"+in), spec[n])
 				} else {
 					emit("rl name "+n, eval(fmt.Sprintf("println(lib.%s())", n)), spec[n])
